@@ -44,6 +44,10 @@ CLAIMS = {
    text='Static analysis of the ykh binary for every option combination and every failure, without running it: all command dispatches execute inside the panic guard, the guard maps unwinding panics to Err, main writes the table only on the Ok arm and exits non-zero with nothing on stdout on the Err arm, no stdout write is reachable from dispatch (never a partial table before an error), no panic=abort profile; the macro-expanded (-t,-c) dispatch of kh and ckh instantiates App::<T>::run with exactly the documented ring for each (coefficient type, polynomial variables) pair, and every documented pair is present (thorough: also for the i128 and BigInt builds). That the printed cells equal the library values is NOT decided.',
    ref='DESIGN.md §3 E10; §4 C20',
    note='Trusted: over-approximating call graph; process::exit semantics; documented table A8 in DESIGN.md.'),
+ 'C18': dict(cat='other', tech='static analysis: convention tables read off MIR path summaries and cross-checked (sibling agreement)',
+   text='Static cross-check, valid for every diagram, of the conventions that link traversal, crossing signs, resolutions, mirroring and braid closures rely on: the tables encoded in pass / arcs / resolve / mirror / the sign match / ori_pres_state / the braid-closure crossing codes are extracted from the MIR of the functions themselves and must agree with each other (involution and orbit structure, mirror/bit duality, sign parity under mirror and reversal, in/out pairing of the Seifert smoothing, counter-clockwise top-entry braid codes with the generator sign). That components partition the edge set of every PD code and that closures have the right component count are NOT decided.',
+   ref='DESIGN.md §3 E7; §4 C18',
+   note='Trusted: PD-code convention (index 0 = incoming under end, counter-clockwise); Sign::is_positive by name.'),
 }
 
 NA = {
